@@ -1,1 +1,173 @@
+(* C07 — The output of a multi-chain run does not depend on how the chains are scheduled on the
+   worker threads (nor on the number of threads), and is a total function of the user seed: every
+   64-bit seed, including the largest, yields well-formed generators, and different seeds yield
+   different generator states.
+   Models: Model/Sched.v — each chain owns its state (position and its own generator); a step of
+   chain i touches component i only (exec1); a schedule is any list of chain indices, i.e. any
+   interleaving the thread pool may produce (exec); `isolated` is the sequential reference in
+   which every chain runs alone.  Model/Seeds.v, Base/Rng.v — seed derivation and the bit-exact
+   SmallRng.  Proofs: Proofs/Sched.v, Proofs/Rng.v. *)
 From MiniMcmc Require Import Model.Seeds Model.Sched.
+From MiniMcmc Require Import Proofs.Rng Proofs.Sched.
+From Coq Require Import Permutation.
+Close Scope N_scope.
+Open Scope nat_scope.
+
+Section C07_schedules.
+  Context {St : Type}.
+  Variable step : nat -> St -> St.   (* step i = one transition of chain i on its own state *)
+  Variable d : St.                   (* default for nth; irrelevant for in-range indices *)
+
+  (* (1) two schedules that give every chain the same number of steps produce the same final
+     states, whatever the interleaving *)
+  Theorem C07_schedule_independent : forall (sched1 sched2 : list nat) (v : list St),
+    (forall i, In i sched1 -> i < length v) ->
+    (forall i, In i sched2 -> i < length v) ->
+    (forall i, count_occ Nat.eq_dec sched1 i = count_occ Nat.eq_dec sched2 i) ->
+    exec step d sched1 v = exec step d sched2 v.
+  Proof. exact (exec_schedule_independent step d). Qed.
+
+  (* (2) and that common result is the sequential reference: chain i performs its own steps in
+     isolation, starting from its own initial state *)
+  Theorem C07_equals_isolated : forall (sched : list nat) (v : list St),
+    (forall i, In i sched -> i < length v) ->
+    exec step d sched v = isolated step (fun i => count_occ Nat.eq_dec sched i) v.
+  Proof. exact (exec_isolated step d). Qed.
+
+  Theorem C07_component : forall (sched : list nat) (v : list St) (k : nat),
+    (forall i, In i sched -> i < length v) -> k < length v ->
+    nth k (exec step d sched v) d = iter (count_occ Nat.eq_dec sched k) (step k) (nth k v d).
+  Proof. exact (nth_exec step d). Qed.
+
+  Theorem C07_length : forall (sched : list nat) (v : list St),
+    length (exec step d sched v) = length v.
+  Proof. exact (exec_length step d). Qed.
+
+  (* (3) any re-ordering of the same multiset of chain steps (any partition of the chains over
+     any number of threads, any interleaving of the threads) gives the same result *)
+  Theorem C07_thread_partition_irrelevant : forall (sched1 sched2 : list nat) (v : list St),
+    Permutation sched1 sched2 ->
+    (forall i, In i sched1 -> i < length v) ->
+    exec step d sched1 v = exec step d sched2 v.
+  Proof. exact (exec_permutation step d). Qed.
+
+  (* (4) the whole history of chain k (the value of component k right after each of its own
+     steps, in schedule order) is the history of chain k run alone: it depends on the schedule
+     only through the number of steps chain k is given *)
+  Theorem C07_chain_trace : forall (k : nat) (sched : list nat) (v : list St),
+    (forall i, In i sched -> i < length v) -> k < length v ->
+    trace step d k sched v
+    = map (fun m => iter (S m) (step k) (nth k v d)) (seq 0 (count_occ Nat.eq_dec sched k)).
+  Proof. exact (trace_spec step d). Qed.
+
+  (* `trace` is what it is meant to be: one entry per schedule position p that runs chain k,
+     namely component k of the state reached after the first p+1 scheduled steps *)
+  Theorem C07_chain_trace_meaning : forall (k : nat) (sched : list nat) (v : list St),
+    trace step d k sched v
+    = map (fun p => nth k (exec step d (firstn (S p) sched) v) d)
+          (filter (fun p => if Nat.eq_dec (nth p sched (S k)) k then true else false)
+                  (seq 0 (length sched))).
+  Proof. exact (trace_prefixes step d). Qed.
+End C07_schedules.
+
+(* (5) the independence rests on every chain owning its generator: if all chains draw from one
+   shared stream, two chains executed in the two possible orders give different results *)
+Theorem C07_shared_stream_refuted :
+  exists (step : nat -> nat -> nat -> nat * nat) (v : list nat) (g : nat),
+    exec_shared step 0 [0; 1] v g <> exec_shared step 0 [1; 0] v g.
+Proof. exact exec_shared_order_matters. Qed.
+
+Open Scope N_scope.
+
+(* (6) the seed derivation is total on all 64-bit seeds and chain indices (wrapping) ... *)
+Theorem C07_seed_total : forall s i, s < W64 -> i < W64 ->
+  mh_seed s i < W64 /\ gibbs_seed s i < W64 /\ nuts_seed s i < W64.
+Proof.
+  intros s i Hs Hi.
+  exact (conj (mh_seed_lt s i Hs Hi) (conj (gibbs_seed_lt s i Hs Hi) (nuts_seed_lt s i Hs Hi))).
+Qed.
+
+(* ... whereas the derivation before the repair (non-wrapping `+`, a panic on overflow) is
+   undefined at the largest seed; where it is defined it agrees with the repaired one *)
+Theorem C07_seed_largest :
+  mh_seed (W64 - 1) 0 = 0 /\ mh_seed_checked (W64 - 1) 0 = None.
+Proof. exact (conj mh_seed_total_example mh_seed_checked_overflows). Qed.
+
+Theorem C07_seed_checked_agrees : forall s i v,
+  mh_seed_checked s i = Some v -> v = mh_seed s i.
+Proof. exact mh_seed_checked_agrees. Qed.
+
+(* (7) the generator state is sensitive to the seed: different seeds, different states *)
+Theorem C07_seed_sensitive : forall a b, a < W64 -> b < W64 -> a <> b ->
+  seed_from_u64 a <> seed_from_u64 b.
+Proof. intros a b Ha Hb Hne E. exact (Hne (seed_from_u64_inj a b Ha Hb E)). Qed.
+
+(* (8) every seed gives a well-formed generator (four 64-bit words), stepping keeps it
+   well-formed and every output is a 64-bit word *)
+Theorem C07_generator_wf :
+  (forall seed, wf (seed_from_u64 seed)) /\
+  (forall s, wf s -> fst (next_u64 s) < W64 /\ wf (snd (next_u64 s))).
+Proof. exact (conj wf_seed wf_next). Qed.
+
+(* (9) every uniform variate is k / 2^53 (f64) or k / 2^24 (f32) with k below the denominator:
+   it lies in [0,1) and 1 is never produced *)
+Theorem C07_uniform_range :
+  (forall s, wf s -> fst (uniform53 s) < 2 ^ 53) /\
+  (forall s, wf s -> fst (uniform24 s) < 2 ^ 24).
+Proof. exact (conj uniform53_range uniform24_range). Qed.
+
+(* (10) the state used by the harness to inject a chosen variate yields exactly that output *)
+Theorem C07_inject_first_output : forall v, v < W64 -> fst (next_u64 (inject_state v)) = v.
+Proof. exact inject_first_output. Qed.
+
+(* ---- non-vacuity *)
+Close Scope N_scope.
+Open Scope nat_scope.
+
+(* three chains, two interleavings with equal per-chain counts (2, 2, 1); the step of chain i
+   maps s to 2 s + i + 1 (so the steps do not commute as functions on a common state) *)
+Example C07_schedules_concrete :
+  let step := fun i s => 2 * s + i + 1 in
+  let v := [0; 10; 20] in
+  let sched1 := [0; 1; 2; 0; 1] in
+  let sched2 := [1; 0; 0; 2; 1] in
+  (forall i, In i sched1 -> i < length v) /\
+  (forall i, In i sched2 -> i < length v) /\
+  (forall i, count_occ Nat.eq_dec sched1 i = count_occ Nat.eq_dec sched2 i) /\
+  Permutation sched1 sched2 /\
+  exec step 0 sched1 v = [3; 46; 43] /\
+  exec step 0 sched2 v = [3; 46; 43] /\
+  isolated step (fun i => count_occ Nat.eq_dec sched1 i) v = [3; 46; 43] /\
+  trace step 0 1 sched1 v = [22; 46] /\
+  trace step 0 1 sched2 v = [22; 46].
+Proof.
+  cbv zeta. repeat split; try (vm_compute; reflexivity).
+  - intros i [<-|[<-|[<-|[<-|[<-|[]]]]]]; simpl; lia.
+  - intros i [<-|[<-|[<-|[<-|[<-|[]]]]]]; simpl; lia.
+  - intros i. destruct i as [|[|[|i]]]; reflexivity.
+  - apply (perm_trans (l' := [1; 0; 2; 0; 1])); [apply perm_swap|].
+    apply perm_skip, perm_skip, perm_swap.
+Qed.
+
+(* the witness of (5): state and stream are naturals, a step adds the next stream value *)
+Example C07_shared_stream_concrete :
+  let step := fun (_ s g : nat) => (s + g, S g) in
+  exec_shared step 0 [0; 1] [0; 0] 1 = ([1; 2], 3) /\
+  exec_shared step 0 [1; 0] [0; 0] 1 = ([2; 1], 3).
+Proof. split; vm_compute; reflexivity. Qed.
+
+Print Assumptions C07_schedule_independent.
+Print Assumptions C07_equals_isolated.
+Print Assumptions C07_component.
+Print Assumptions C07_length.
+Print Assumptions C07_thread_partition_irrelevant.
+Print Assumptions C07_chain_trace.
+Print Assumptions C07_chain_trace_meaning.
+Print Assumptions C07_shared_stream_refuted.
+Print Assumptions C07_seed_total.
+Print Assumptions C07_seed_largest.
+Print Assumptions C07_seed_checked_agrees.
+Print Assumptions C07_seed_sensitive.
+Print Assumptions C07_generator_wf.
+Print Assumptions C07_uniform_range.
+Print Assumptions C07_inject_first_output.
